@@ -380,11 +380,15 @@ CLAIMED = {
              "character-level model of PauliLabel.__str__ and _parse_pauli_label_str (re.sub dropping white space after X/Y/Z, split(), the "
              "'I' form, ([XYZ])([0-9]+), int(), the duplicate test) - the string form of every label with one factor per qubit, any number "
              "of factors, indices of any size, parses back to exactly that label, so the intern key separates labels; run by vm_compute "
-             "against str(label) and the real parser on printed strings, structured mutations and random strings (corr_C05_str.py).",
+             "against str(label) and the real parser on printed strings, structured mutations and random strings (corr_C05_str.py). "
+             "interning_by_string_form_returns_the_requested_label (Intern.v): the weak intern table of PauliLabel.__new__, keyed by the string "
+             "form, over every history of constructions and vanishing entries hands out exactly the content asked for; with a colliding key it "
+             "would not (interning_by_a_colliding_key_conflates_labels); run against the real constructors on random histories "
+             "(corr_C05_intern.py) and on labels with colliding frozenset hashes.",
         design_ref="DESIGN.md section 4 (C05), 9.2",
         note="Trusted: Coq kernel+vm_compute; Reals axioms + funext; translate/tables.py; correspondence harnesses; scipy's kron "
-             "index rule as modelled. Partial: Trotter-Suzuki has no theorem (sweep); the WeakValueDictionary intern table is "
-             "checked on the real objects; label strings are modelled on the ASCII range (Python re / split / int contracts as modelled); binary64 rounding not modelled.",
+             "index rule as modelled. Partial: Trotter-Suzuki has no theorem (sweep); the WeakValueDictionary intern table is modelled as a table with entries vanishing at any "
+             "time (tied by correspondence on CPython's immediate reclamation); label strings are modelled on the ASCII range (Python re / split / int contracts as modelled); binary64 rounding not modelled.",
         technique="Coq proof (induction over labels and term lists on an n-qubit operator semantics, table obligations "
                   "by vm_compute) + vm_compute correspondence + dense numpy sweep"),
     "C03": dict(
